@@ -326,3 +326,13 @@ def pinned(ctx, vh):
         ws = ws_from_witness(ctx, w)
         one_history(ctx, vh, ws, w["steps"], quick=False)
         shutil.rmtree(ws.root, ignore_errors=True)
+        # directed: import-only edits of a conftest that defines nothing itself (re-export only)
+        ws = ws_from_witness(ctx, w, name="reexport")
+        c0 = ws.files["conftest.py"]
+        steps = [{"op": "imports_only_remove", "rel": "conftest.py", "text": "\n", "valid": True},
+                 {"op": "resend", "rel": "test_probe.py", "text": ws.files["test_probe.py"], "valid": True},
+                 {"op": "imports_only_add", "rel": "conftest.py", "text": c0, "valid": True},
+                 {"op": "imports_only_remove", "rel": "conftest.py", "text": "import os\n", "valid": True},
+                 {"op": "imports_only_add", "rel": "conftest.py", "text": "from fxm import *\n", "valid": True}]
+        one_history(ctx, vh, ws, steps, quick=False)
+        shutil.rmtree(ws.root, ignore_errors=True)
